@@ -33,6 +33,17 @@ CLAIMED["C03"] = dict(
     note=TB_COMMON + "The per-shape linear-constant-coefficient judgement is an input of the graph model (its soundness is the split model of C02/C04); SciPy's strong components are compared with the model's own closure on every case.",
     ref="DESIGN.md 4 C03")
 
+CLAIMED["C13"] = dict(
+    technique="Lean 4 invariant proofs about a model of the integrate_ode event loop with an arbitrary stepper (contract: progresses, never overshoots); scripted-stepper correspondence with the real loop",
+    text="Proof (PARTIAL - event/bookkeeping logic only): for every stepper satisfying GoodApply, every strictly increasing positive spike list, every max_step>0 and sim_time: the log starts at the initial values, times strictly increase and end exactly at sim_time, in precise mode every spike before the end is applied exactly once at its own time, in aliased mode exactly once at a boundary tau with tau-max_step < t_spike <= tau, and after every step out-of-bound variables equal their initial value. Tie: the real integrate_ode(debug=True) runs unmodified against a scripted pygsl stand-in whose stepping function is shared bit-for-bit with the Lean driver; t_log / y_log / crossed compared exactly.",
+    note=TB_COMMON + "NOT covered by any model: accuracy between events, the real GSL steppers, floating point, the values the analytic integrator feeds into step() (C12 covers the analytic integrator itself). These are observed through a numerical stand-in only.",
+    ref="DESIGN.md 4 C13")
+CLAIMED["C10"] = dict(
+    technique="Lean 4 theorem for any derivation on a commutative ring about the expression the code differentiates; value-level correspondence of that expression and independent differentiation oracle",
+    text="Proof: jacobian_correct - for every derivation D (additive, Leibniz) with D(A_ik)=0 and D(x_k)=delta_jk, D applied to the expression built by get_jacobian_matrix (c_i + sum_k A_ik x_k) equals A_ij + D c_i, the derivative of the complete right-hand side; jacobian_prefix_defect shows the pre-repair expression loses the linear part. Tie: the expression actually handed to sympy.diff is captured and its value at a random rational point compared with the model's; the resulting J is compared with an independent differentiation of the user's text; the numerical clause (numerical_jacobian vs finite differences of step) is observed through the stand-in.",
+    note=TB_COMMON + "sympy.diff is taken to be a derivation (contract). The numerical clause is a runtime observation (lambdify instead of Cython autowrap in quick runs), not a theorem.",
+    ref="DESIGN.md 4 C10")
+
 NOT_YET = {}
 
 def main():
